@@ -119,6 +119,7 @@ PolicyIrrelevantWithoutTouch ==
         \A pol \in {"default", "strict", "falsy"} : Expect(d, [c EXCEPT !.undef = pol]) = tch
 
 \* C06: the unlimited render with its consumption measures
+DepthProbe == 12
 ExportMeasures ==
   prog # <<>> =>
     \A i \in DOMAIN Combos :
@@ -128,7 +129,11 @@ ExportMeasures ==
                templates |-> <<<<"main", Src(prog)>>>> \o [j \in DOMAIN Partials |-> <<Partials[j][1], Src(Partials[j][2])>>],
                data |-> Combos[i][1], cfg |-> Combos[i][2],
                expect |-> [ok |-> (m.err = ""), err |-> m.err, out |-> m.out],
-               measures |-> [outbytes |-> m.outbytes, peak |-> m.peak, prod |-> m.prod, iters |-> m.iters, nsvals |-> m.nsvals]]) \o "\n")
+               measures |-> [outbytes |-> m.outbytes, peak |-> m.peak, prod |-> m.prod, iters |-> m.iters, nsvals |-> m.nsvals,
+                             \* the outcome under every small context-depth limit ("" = rendered): the limit is a bound
+                             \* on how often a context is extended or copied, exactly
+                             depths |-> IF m.err # "" THEN <<>>
+                                        ELSE [L \in 1..DepthProbe |-> Render(Tpls(prog), "main", Combos[i][1], [Combos[i][2] EXCEPT !.depthlimit = L]).err]]]) \o "\n")
 
 \* sanity of the measures on the reference: what is returned never exceeds the peak of
 \* the buffer chain, and no loop body runs more often than the product of the lengths
